@@ -88,7 +88,7 @@ def _job(args):
         pr = qm.Product(x, A, D, P, Q, timeout_ms=timeout_ms)
         pr.encode()
         res['edges'] = len(pr.E)
-        v = pr.violations()
+        v = {k: c for k, c in pr.violations().items() if k[0] == pid}
         S = pr.states
         # vacuity twins
         twins = {
@@ -104,8 +104,11 @@ def _job(args):
             res['vacuity'][name] = r
             if r != 'sat':
                 res['error'] = 'vacuity twin %s is %s (the model cannot reach the situations the property is about within D=%d)' % (name, r, D)
-        r, m, dt = pr.check(z3.Or(*v.values()))
-        res['queries'].append({'q': 'all-clauses', 'res': r, 's': round(dt, 2)})
+        if v:
+            r, m, dt = pr.check(z3.Or(*v.values()))
+        else:
+            r, m, dt = 'unsat', None, 0.0
+        res['queries'].append({'q': 'clauses-of-%s' % pid, 'res': r, 's': round(dt, 2), 'clauses': [c for (_, c) in v]})
         if r == 'unknown':
             res['error'] = 'solver unknown on the product query'
         if r == 'sat':
